@@ -25,6 +25,10 @@ fn main() {
         std::process::exit(2);
     }
     let prop = args[1].clone();
+    if prop == "gen-ansi" {
+        print!("{}", props::c12::generated_table());
+        return;
+    }
     let mut tier = "quick".to_string();
     let mut seed: u64 = 1;
     let mut model = PathBuf::from("/verif/lean/.lake/build/bin/pastel-model");
